@@ -128,6 +128,30 @@ CLAIMED.update({
     },
 })
 
+CLAIMED.update({
+    "C16": {
+        "text": "Coq theorems: every entry of a part's response table is the wire name of a query handler of that part paired with the type the handler returns on success or the type given with resp= (Self-stripped), and every query handler has its entry; the contract-level table contains an entry iff some part's table does (flatten over the parts) and, names being disjoint between parts, lists every sendable name once. Tie: L1 the returns(T) recorded per variant, the flatten over the parts and the any_of over the parts in real expansions vs model and signature; L2 response_schemas() of every part and of the contract-level query vs cosmwasm_schema::schema_for!(declared type) computed in the same binary, names vs serialised names, contract-level schema anyOf vs parts (including a contract whose parts are all generic).",
+        "note": COMMON_NOTE + "Partial: what schemars/cosmwasm-schema make of a type is the dependency's (a Section-free abstraction: the model speaks about which TYPE is named); the hidden generic-carrier entry `__phantom` is not a sendable name and is ignored.",
+        "technique": "Coq proof (table entries characterised through the expansion model) + L1/L2 differential correspondence",
+        "design_ref": "DESIGN.md section 5 / C16",
+    },
+    "C19": {
+        "text": "Coq theorems computed over the token lists of every quote!/parse_quote! body of sylvia-derive/src, regenerated on every run (262 templates): no template writes a path rooted at the framework or one of its re-exported dependencies literally (each such path starts at an interpolation hole), nor a string naming such a crate; the type parameters a template introduces in the scope of user parameters are not conventional names (no single upper-case letter, no single capitalised word). Tie: real compilation, with the framework imported only as `fw` and no direct dependency on its re-exports, of programs covering the generation branches (all kinds, replies with partial coverage and every data mode, legacy reply, custom chain types with a bridged interface, overridden entry point, multitest helpers, entry points) and of a generic contract + interface whose parameter is named by each letter / conventional word; every L2 corpus of the other checks is compiled through a renamed dependency as well.",
+        "note": COMMON_NOTE + "Partial: whether rustc accepts the expansion is rustc's name resolution (decided by the compiled batch). `Error` next to an interface's associated types is the interface's own mandatory type. A user parameter named like a generated ITEM (e.g. Api, ExecMsg) is outside the property (helper type parameters and crate name).",
+        "technique": "Coq proof by computation over templates regenerated from the source (translator) + real rustc batch under a renamed dependency",
+        "design_ref": "DESIGN.md section 5 / C19",
+    },
+})
+
+CLAIMED.update({
+    "C12": {
+        "text": "Coq theorems with the chain as an arbitrary step function: every proxy call performs exactly the chain operation of the corresponding raw JSON call - same operation kind, sender, target, message, funds, label (default \"Contract\"), admin and salt, for every sequence of option setters (last one wins; induction) - hence for any history the proxy run and the raw run end in equal chains with equal outputs (induction over the history); an error of the contract's own type surfaces unchanged. Tie: compiled echo contracts; random histories (instantiate with options, exec with funds, query, sudo, migrate, failing handlers, chain-level failures) issued through the generated proxies on one cw-multi-test chain and as raw JSON built from the method signatures on a second identically seeded chain; results and full state (storage dump, contract info, balances) compared after every step.",
+        "note": COMMON_NOTE + "Partial: behaviour inside cw-multi-test cannot be exhibited by the theorem (the chain is a parameter); the differential run on two real chains carries it. The message a proxy sends is C01's encoding.",
+        "technique": "Coq proof (operation equality; induction over setter sequences and histories, chain as a parameter) + L2 differential histories on two real test chains",
+        "design_ref": "DESIGN.md section 5 / C12",
+    },
+})
+
 NOT_YET = {}
 
 
